@@ -180,6 +180,11 @@ func historyScenario(depth int, seed int64) mc.Scenario {
 
 // concurrent submissions
 func concScenario(name string, same int, others int, bound int, early bool, seed int64) mc.Scenario {
+	// preemption inside the replay filter's test-and-set and at lock operations
+	return concScenarioKinds(name, same, others, bound, early, []string{"stmt replay_filter.go", "lock"}, seed)
+}
+
+func concScenarioKinds(name string, same int, others int, bound int, early bool, kinds []string, seed int64) mc.Scenario {
 	return mc.Scenario{
 		Name:   name,
 		Params: map[string]any{"threads_same_blob": same, "threads_fresh_blob": others},
@@ -200,7 +205,7 @@ func concScenario(name string, same int, others int, bound int, early bool, seed
 			var replays []verdict
 			// early: the clock is monotone but it moves -- any read of the clock by
 			// the code under test may see it 1ns later than the previous read
-			res := sched.Run(c, sched.Options{PreemptKinds: []string{"stmt", "lock"}, NoEarlyTimers: true, TickOnNow: early, Start: start, MaxSteps: 3_000_000}, func() {
+			res := sched.Run(c, sched.Options{PreemptKinds: kinds, NoEarlyTimers: true, TickOnNow: early, Start: start, MaxSteps: 3_000_000}, func() {
 				s := sched.Cur()
 				shared = newBlob(br, r, 0, "shared")
 				for i := 0; i < others; i++ {
@@ -283,6 +288,11 @@ func main() {
 		for k := 1; k <= d; k++ {
 			emit(historyScenario(k, cfg.Seed))
 		}
+		// preemption at every statement of the server handshake functions as
+		// well (state shared between the in-flight handshakes of one factory)
+		emit(concScenarioKinds("concurrent-hs-stmt/2-same", 2, 0, 1, false, []string{"stmt", "lock"}, cfg.Seed))
+		emit(concScenarioKinds("concurrent-hs-stmt/2-fresh", 0, 2, 1, false, []string{"stmt", "lock"}, cfg.Seed))
+		emit(concScenarioKinds("concurrent-hs-stmt/1-same+2-fresh", 1, 2, 1, false, []string{"stmt", "lock"}, cfg.Seed))
 		emit(concScenario("concurrent/2-same", 2, 0, b, false, cfg.Seed))
 		emit(concScenario("concurrent/3-same", 3, 0, b, false, cfg.Seed))
 		emit(concScenario("concurrent/2-same+1-fresh", 2, 1, b, false, cfg.Seed))
